@@ -165,44 +165,32 @@ def rule_fifty(fx, rep):
     ok = True
     n = 0
     paths = [p for p in decision_paths(b) if p[1] is not None]
+    # evaluate the clock comparisons of every path for concrete clock values (clock_path_taken is defined below)
+    shape_ok = bool(paths)
     thr = None
-    shape_ok = True
-    for conds, ret, bb in paths:
-        clock_cond = None
-        for (e, v) in conds:
-            co = cmp_op(e)
-            if co and any(isinstance(x, tuple) and len(x) == 3 and x[0] == "field" and x[2] == "halfmove_clock" for x in walk(deep_strip(e))):
-                a, c = deep_strip(co[1]), deep_strip(co[2])
-                const = [x[1] for x in (a, c) if isinstance(x, tuple) and x[0] == "const"]
-                truth = (v != 0) if isinstance(v, int) else (0 in v[1])
-                op = co[0]
-                if isinstance(a, tuple) and a[0] == "const":
-                    op = {"Ge": "Le", "Gt": "Lt", "Le": "Ge", "Lt": "Gt"}.get(op, op)
-                clock_cond = (op, const[0] if const else None, truth)
-        r = deep_strip(ret)
-        if clock_cond is None:
+    for clock in (0, 1, 50, 98, 99, 100, 101, 150, 1000):
+        taken = [(conds, ret) for conds, ret, bb in paths if clock_path_taken(conds, clock)]
+        if any(clock_path_taken(conds, clock) is None for conds, ret, bb in paths) or len(taken) != 1:
             shape_ok = False
-            continue
-        op, c, truth = clock_cond
-        # normalise to "clock >= T"
-        T = c if op == "Ge" else (c + 1 if op == "Gt" else None)
-        if T is None:
+            break
+        r = deep_strip(taken[0][1])
+        is_false = isinstance(r, tuple) and r[0] == "const" and r[1] == 0
+        is_has_move = isinstance(r, tuple) and r[0] == "unop" and r[1] == "Not" and bool(find_calls(r, "is_empty"))
+        if not (is_false or is_has_move):
             shape_ok = False
-            continue
-        thr = T
-        if not truth:
-            if not (isinstance(r, tuple) and r[0] == "const" and r[1] == 0):
-                shape_ok = False
-        else:
-            if not (isinstance(r, tuple) and r[0] == "unop" and r[1] == "Not" and find_calls(r, "is_empty")):
-                shape_ok = False
+            break
+        if is_has_move and thr is None:
+            thr = clock
+        if (clock >= 100) != is_has_move:
+            shape_ok = False
+            thr = thr if thr is not None else clock
     n += 1
-    good = shape_ok and thr == 100 and len(paths) == 2
+    good = shape_ok
     rep.obligation(good)
-    rep.sample({"rule": "C11-FIFTY", "threshold": thr, "paths": len(paths)})
+    rep.sample({"rule": "C11-FIFTY", "paths": len(paths), "first_clock_with_legal_move_test": thr})
     if not good:
         ok = False
-        rep.violation("C11-FIFTY", "C11-FIFTY/shape", f"the fifty-move predicate is not `halfmove_clock >= 100 && has a legal move` (threshold {thr}, {len(paths)} paths)", {"fn": b.name, "file": b.file, "line": b.line})
+        rep.violation("C11-FIFTY", "C11-FIFTY/shape", f"the fifty-move predicate is not `halfmove_clock >= 100 && has a legal move` (evaluated for sample clocks; legal-move test first applies at clock {thr})", {"fn": b.name, "file": b.file, "line": b.line})
     n += 1
     gl = b.calls_to("gen::generate_legal_moves")
     good = len(gl) == 1
